@@ -410,13 +410,6 @@ func (c *c15Checker) flushModel() {
 	c.reqs, c.reqImpl, c.reqIn, c.reqActs, c.reqBad = nil, nil, nil, nil, nil
 }
 
-func imin(a, b int) int {
-	if a < b {
-		return a
-	}
-	return b
-}
-
 // ---------- generators for the unit part ----------
 
 var c15NameWidths = []int{1, 6, 7, 8, 14, 15, 16, 17, 23, 24, 31, 40}
